@@ -15,11 +15,12 @@ import (
 // default destination policy can be exercised end to end, offline, with a private port space.
 
 type netEnv struct {
-	netns      bool
-	publicV4   []string
-	publicV6   []string
-	forbidden  []string // addresses the default policy must never contact
-	linkLocal6 string   // zoned link-local address usable as a datagram source, "" if unavailable
+	netns          bool
+	publicV4       []string
+	publicV6       []string
+	forbidden      []string // addresses the default policy must never contact
+	linkLocal6     string   // zoned link-local address usable as a datagram source, "" if unavailable
+	linkLocal6Long string   // another one whose textual form (address%zone) is longer than any SOCKS IP header
 }
 
 var (
@@ -85,6 +86,9 @@ func setupNet(args map[string]string, out *Out) *netEnv {
 			e.linkLocal6 = "fe80::5%lo"
 		} else {
 			out.Note("link-local add failed: %v", err)
+		}
+		if err := sh("ip -6 addr add fe80::1234:5678:9abc:def0/64 dev lo nodad"); err == nil {
+			e.linkLocal6Long = "fe80::1234:5678:9abc:def0%lo"
 		}
 		// give the kernel a moment to make the v6 addresses usable
 		time.Sleep(50 * time.Millisecond)
